@@ -41,6 +41,7 @@ func sweepNonblocking(p *Prog, pc *PropConfig, tags string, r *checkResult) {
 	fv.Name = "diode.Writer.Write[nonblocking]"
 	fv.activeProp = pc.ID
 	fv.curReach = "true"
+	fv.replayTemplate = "diode_nonblock"
 	blocking := map[string]bool{
 		"(*sync.Mutex).Lock": true, "(*sync.RWMutex).Lock": true, "(*sync.RWMutex).RLock": true, "(*sync.Cond).Wait": true,
 		"(*sync.WaitGroup).Wait": true, "time.Sleep": true, "(*sync.Once).Do": true,
@@ -67,12 +68,74 @@ func sweepNonblocking(p *Prog, pc *PropConfig, tags string, r *checkResult) {
 	seen := map[*ssa.Function]bool{}
 	var visit func(f *ssa.Function, path []string)
 	nCalls := 0
+	nLoops := 0
 	visit = func(f *ssa.Function, path []string) {
 		if seen[f] || len(path) > 12 {
 			return
 		}
 		seen[f] = true
 		here := append(append([]string{}, path...), shortFn(f))
+		// no spin-wait: every way round a loop makes progress of its own -- it passes an atomic
+		// read-modify-write that always takes effect (Add/Swap: a fresh position is claimed), or the loop
+		// is a range loop. A loop that only re-reads shared state (Load, failed CompareAndSwap) waits for
+		// another goroutine -- in the diode, for the consumer, hence for the wrapped writer.
+		for _, h := range f.Blocks {
+			isHeader := false
+			for _, q := range h.Preds {
+				if h.Dominates(q) {
+					isHeader = true
+				}
+			}
+			if !isHeader {
+				continue
+			}
+			ranged := false
+			for _, in := range h.Instrs {
+				if ph, ok := in.(*ssa.Phi); ok && ph.Comment == "rangeindex" {
+					ranged = true
+				}
+			}
+			progress := func(b *ssa.BasicBlock) bool {
+				for _, in := range b.Instrs {
+					if c, ok := in.(*ssa.Call); ok {
+						if g := c.Call.StaticCallee(); g != nil && g.Pkg != nil && g.Pkg.Pkg.Path() == "sync/atomic" && (strings.HasPrefix(g.Name(), "Add") || strings.HasPrefix(g.Name(), "Swap")) {
+							return true
+						}
+					}
+				}
+				return false
+			}
+			// can the header reach itself through blocks it dominates without passing a progress block?
+			spin := false
+			seenB := map[*ssa.BasicBlock]bool{}
+			var walk func(b *ssa.BasicBlock)
+			walk = func(b *ssa.BasicBlock) {
+				if spin || seenB[b] || !h.Dominates(b) || progress(b) {
+					return
+				}
+				seenB[b] = true
+				for _, sx := range b.Succs {
+					if sx == h {
+						spin = true
+						return
+					}
+					walk(sx)
+				}
+			}
+			if !progress(h) {
+				seenB[h] = true
+				for _, sx := range h.Succs {
+					if sx == h {
+						spin = true
+					}
+					walk(sx)
+				}
+			}
+			nLoops++
+			if spin && !ranged {
+				fv.oblige("nonblocking", "spin-loop", nil, h.Instrs[0].Pos(), "false", "a loop in "+shortFn(f)+" can go round without an atomic read-modify-write of its own: it waits for another goroutine (reachable from Writer.Write via "+strings.Join(here, " -> ")+")")
+			}
+		}
 		for _, b := range f.Blocks {
 			for _, in := range b.Instrs {
 				switch x := in.(type) {
@@ -151,7 +214,7 @@ func sweepNonblocking(p *Prog, pc *PropConfig, tags string, r *checkResult) {
 		goal = "true"
 	}
 	fv.oblige("fieldinit", "single-consumer", nil, poll.Pos(), goal, fmt.Sprintf("poll is started by exactly one go statement in NewWriter (found %d) and called from nowhere else (found %d): one consumer, deliveries one at a time", starts, calls))
-	fv.oblige("fieldinit", "callgraph-checked", nil, entry.Pos(), "true", fmt.Sprintf("%d call sites in %d functions reachable from Writer.Write checked: %s", nCalls, len(seen), strings.Join(names, ", ")))
+	fv.oblige("fieldinit", "callgraph-checked", nil, entry.Pos(), "true", fmt.Sprintf("%d call sites and %d loops in %d functions reachable from Writer.Write checked: %s", nCalls, nLoops, len(seen), strings.Join(names, ", ")))
 	if len(seen) < 3 {
 		r.errors = append(r.errors, "nonblocking sweep reached fewer than 3 functions")
 	}
